@@ -196,6 +196,9 @@ func main() {
 	for sh := 0; sh < 4; sh++ {
 		tasks = append(tasks, task{fmt.Sprintf("oldlayout/%d", sh), func(h *H) { h.phaseOldLayout(sh, 4) }})
 	}
+	for sh := 0; sh < 2; sh++ {
+		tasks = append(tasks, task{fmt.Sprintf("concurrent/%d", sh), func(h *H) { h.phaseConcurrent(sh, 2) }})
+	}
 	tasks = append(tasks,
 		task{"utf8", func(h *H) { h.phaseUTF8() }}, task{"limits/0", func(h *H) { h.phaseLimits(0, 14) }})
 	for sh := 1; sh < 14; sh++ {
@@ -252,6 +255,9 @@ func main() {
 	}
 	wg.Wait()
 	res.SetExtra("phase_seconds", timings)
+	if f.Thorough() && os.Getenv("C07_CHILD") == "" && h.only == nil && len(onlyPhases) == 0 {
+		runRaceChild(f, res)
+	}
 	if h.only == nil && len(onlyPhases) == 0 {
 		// ties must not silently disappear: minimum hit counts of the comparisons that have a fixed size
 		need := map[string]int{"projection-table:compared": 9, "decoder-utf8-mode:" + h.decoderMode(): 1}
